@@ -11,8 +11,8 @@ use std::sync::{Arc, Condvar, Mutex};
 use std::time::{Duration, Instant};
 
 #[derive(Clone, Copy, Debug, PartialEq, Eq, Hash)]
-pub enum COp { Sorted, Clone, CMap, CStream, Once }
-impl COp { fn tok(&self) -> &'static str { match self { COp::Sorted => "s", COp::Clone => "c", COp::CMap => "m", COp::CStream => "t", COp::Once => "o" } } }
+pub enum COp { Sorted, Clone, CMap, CStream, Once, CStreamKeep }
+impl COp { fn tok(&self) -> &'static str { match self { COp::Sorted => "s", COp::Clone => "c", COp::CMap => "m", COp::CStream | COp::CStreamKeep => "t", COp::Once => "o" } } }
 
 #[derive(Clone, Copy, PartialEq, Eq, Debug)]
 enum St { NotStarted, AtPoint, Running, Done }
@@ -22,6 +22,8 @@ pub struct Ctl { st: Mutex<CtlState>, cv: Condvar }
 
 thread_local! { static TID: Cell<Option<usize>> = Cell::new(None); static PRIVATE: Cell<bool> = Cell::new(false); }
 static CTL: Mutex<Option<Arc<Ctl>>> = Mutex::new(None);
+/// identity (address of the shared `mappings` allocation) of every map handed out by `CachedSource::map` during a scheduled run
+static MAP_PTRS: Mutex<Vec<usize>> = Mutex::new(Vec::new());
 
 fn hook(site: &'static str) {
   let Some(tid) = TID.with(|t| t.get()) else { return };
@@ -62,13 +64,21 @@ fn do_op(op: COp, r: &ReplaceSource<BoxSource>, c: &CachedSource<BoxSource>) -> 
   match op {
     COp::Sorted => hx(r.source().as_bytes()),
     COp::Clone => { let cl = r.clone(); PRIVATE.with(|p| p.set(true)); let s = hx(cl.source().as_bytes()); PRIVATE.with(|p| p.set(false)); s }
-    COp::CMap => { let m = c.map(&MapOptions::new(true)); let src = c.source().as_bytes().to_vec(); format!("{:?}", m.map(|m| attr_map(&SMapT::of(&m), &src).iter().map(|a| show_attr(&no_content(a))).collect::<Vec<_>>())) }
+    COp::CMap => { let m = c.map(&MapOptions::new(true));
+      if TID.with(|t| t.get()).is_some() { if let Some(m) = &m { MAP_PTRS.lock().unwrap_or_else(|e| e.into_inner()).push(m.mappings().as_ptr() as usize); } }
+      let src = c.source().as_bytes().to_vec(); format!("{:?}", m.map(|m| attr_map(&SMapT::of(&m), &src).iter().map(|a| show_attr(&no_content(a))).collect::<Vec<_>>())) }
     COp::CStream => { let st = run_stream(c, true, false); format!("{}:{} {:?}", st.line, st.col, attr_stream(&st).iter().map(|a| show_attr(&no_content(a))).collect::<Vec<_>>()) }
+    // streaming with callbacks that are schedule points themselves and that keep what they borrow (C19)
+    COp::CStreamKeep => {
+      let (st, bad) = run_stream_keep_checked(c, true, false, &|| hook("cb.chunk"));
+      let a = format!("{}:{} {:?}", st.line, st.col, attr_stream(&st).iter().map(|a| show_attr(&no_content(a))).collect::<Vec<_>>());
+      match bad { Some(b) => format!("KEPT-BORROW-CHANGED {b} // {a}"), None => a }
+    }
     COp::Once => { let mut h = std::collections::hash_map::DefaultHasher::new(); { use std::hash::Hash; c.hash(&mut h); } h.finish().to_string() }
   }
 }
 
-pub struct RunOut { pub answers: Vec<Vec<String>>, pub log: Vec<(usize, &'static str)>, pub deadlock: bool, pub timeouts: u64, pub violations: Vec<&'static str>, pub panics: Vec<String> }
+pub struct RunOut { pub map_ptrs: Vec<usize>, pub answers: Vec<Vec<String>>, pub log: Vec<(usize, &'static str)>, pub deadlock: bool, pub timeouts: u64, pub violations: Vec<&'static str>, pub panics: Vec<String> }
 
 /// run `cfg` with real threads following `schedule` (thread ids), then let everything finish
 pub fn run_scheduled(cfg: &Config, schedule: &[usize]) -> RunOut {
@@ -76,6 +86,7 @@ pub fn run_scheduled(cfg: &Config, schedule: &[usize]) -> RunOut {
   let ctl = Arc::new(Ctl { st: Mutex::new(CtlState { status: vec![St::NotStarted; n], site: vec![""; n], granted: None, log: vec![], free_run: false }), cv: Condvar::new() });
   *CTL.lock().unwrap_or_else(|e| e.into_inner()) = Some(ctl.clone());
   let _ = verif::take_unsafe_violations();
+  MAP_PTRS.lock().unwrap_or_else(|e| e.into_inner()).clear();
   let (r, c) = shared_objects(cfg);
   let (r, c) = (Arc::new(r), Arc::new(c));
   let mut handles = vec![];
@@ -125,30 +136,31 @@ pub fn run_scheduled(cfg: &Config, schedule: &[usize]) -> RunOut {
   else { for h in handles { match h.join() { Ok(v) => answers.push(v), Err(_) => { answers.push(vec!["panic".into()]); panics.push("thread panicked".into()); } } } }
   let log = ctl.st.lock().unwrap_or_else(|e| e.into_inner()).log.clone();
   *CTL.lock().unwrap_or_else(|e| e.into_inner()) = None;
-  RunOut { answers, log, deadlock, timeouts, violations: verif::take_unsafe_violations(), panics }
+  RunOut { map_ptrs: std::mem::take(&mut *MAP_PTRS.lock().unwrap_or_else(|e| e.into_inner())), answers, log, deadlock, timeouts, violations: verif::take_unsafe_violations(), panics }
 }
 
 pub fn sequential_answers(cfg: &Config) -> BTreeMap<COp, String> {
   let mut m = BTreeMap::new();
   for op in [COp::Sorted, COp::Clone, COp::CMap, COp::CStream, COp::Once] { let (r, c) = shared_objects(cfg); m.insert(op, do_op(op, &r, &c)); }
+  let t = m[&COp::CStream].clone(); m.insert(COp::CStreamKeep, t);
   m
 }
 impl PartialOrd for COp { fn partial_cmp(&self, o: &Self) -> Option<std::cmp::Ordering> { Some(self.cmp(o)) } }
 impl Ord for COp { fn cmp(&self, o: &Self) -> std::cmp::Ordering { (*self as u8).cmp(&(*o as u8)) } }
 
 /// the observed order of shared-state accesses as a model schedule (one model step per schedule point)
-fn model_schedule(log: &[(usize, &'static str)]) -> Vec<usize> { log.iter().map(|(t, _)| *t).collect() }
+fn model_schedule(log: &[(usize, &'static str)]) -> Vec<usize> { log.iter().filter(|(_, s)| !s.starts_with("cb.")).map(|(t, _)| *t).collect() }
 
 pub fn gen_config(rng: &mut Rng) -> Config {
   let n = 2 + rng.below(2);
-  let ops = [COp::Sorted, COp::Clone, COp::CMap, COp::CStream, COp::Once];
+  let ops = [COp::Sorted, COp::Clone, COp::CMap, COp::CStream, COp::Once, COp::CStreamKeep];
   // mostly ops on one of the two shared objects so that threads collide
-  let family = rng.below(3);
-  let progs = (0..n).map(|_| (0..1 + rng.below(3)).map(|_| match family { 0 => ops[rng.below(2)], 1 => ops[2 + rng.below(3)], _ => ops[rng.below(5)] }).collect()).collect();
+  let family = rng.below(4);
+  let progs = (0..n).map(|_| (0..1 + rng.below(3)).map(|_| match family { 0 => ops[rng.below(2)], 1 => ops[2 + rng.below(4)], 2 => [COp::CStream, COp::CStreamKeep, COp::CStreamKeep, COp::CMap][rng.below(4)], _ => ops[rng.below(6)] }).collect()).collect();
   Config { progs, nrepl: 1 + rng.below(3), cached_sms: rng.chance(2) }
 }
 
-pub fn run(seed: u64, nsched: u64, driver: &str, thorough: bool) -> serde_json::Value {
+pub fn run(seed: u64, nsched: u64, driver: &str, thorough: bool, prop: &str) -> serde_json::Value {
   verif::set_sched_hook(Some(Arc::new(hook)));
   let mut rng = Rng::new(seed);
   let mut d = Driver::spawn(driver);
@@ -160,6 +172,9 @@ pub fn run(seed: u64, nsched: u64, driver: &str, thorough: bool) -> serde_json::
     Config { progs: vec![vec![COp::Clone], vec![COp::Sorted]], nrepl: 2, cached_sms: false },
     Config { progs: vec![vec![COp::CMap], vec![COp::CStream]], nrepl: 1, cached_sms: false },
     Config { progs: vec![vec![COp::CMap, COp::CMap], vec![COp::CStream, COp::CMap], vec![COp::Once, COp::CStream]], nrepl: 1, cached_sms: true },
+    // a cold stream parked in its callbacks while another thread fills the cache and replays from it
+    Config { progs: vec![vec![COp::CStreamKeep], vec![COp::CStream, COp::CStreamKeep]], nrepl: 1, cached_sms: true },
+    Config { progs: vec![vec![COp::CStreamKeep, COp::CStreamKeep], vec![COp::CStreamKeep, COp::CMap]], nrepl: 1, cached_sms: false },
   ];
   let mut k = 0u64;
   while runs < nsched {
@@ -167,14 +182,19 @@ pub fn run(seed: u64, nsched: u64, driver: &str, thorough: bool) -> serde_json::
     if (k as usize) >= configs.len() { configs.push(cfg.clone()); }
     k += 1;
     let seq = sequential_answers(&cfg);
-    let per_cfg = if thorough { 40 } else { 6 };
+    let per_cfg = if thorough { 40 } else { 8 };
     for j in 0..per_cfg {
       if runs >= nsched { break }
       // schedules: fixed critical ones first, then random
-      let total_steps: usize = cfg.progs.iter().map(|p| p.len() * 4 + 1).sum();
+      let total_steps: usize = cfg.progs.iter().map(|p| p.iter().map(|o| if *o == COp::CStreamKeep { 12 } else { 4 }).sum::<usize>() + 1).sum();
       let schedule: Vec<usize> = if j == 0 { (0..total_steps).map(|i| i % cfg.progs.len()).collect() }
         else if j == 1 { let mut v = vec![0usize]; for _ in 0..total_steps { v.push(1 % cfg.progs.len()); } v.extend((0..total_steps).map(|i| i % cfg.progs.len())); v }
+        else if j % 2 == 0 {
+          // runs of the same thread: parks one thread deep inside an operation while another completes whole operations
+          let mut v = vec![]; while v.len() < total_steps { let t = rng.below(cfg.progs.len()); for _ in 0..1 + rng.below(8) { v.push(t); } } v
+        }
         else { (0..total_steps).map(|_| rng.below(cfg.progs.len())).collect() };
+      inflight(|| json!({ "config": format!("{:?}", cfg), "schedule": schedule, "requests": [] }));
       let out = run_scheduled(&cfg, &schedule);
       runs += 1; timeouts += out.timeouts;
       for p in &cfg.progs { for op in p { *dist.entry(format!("op:{:?}", op)).or_default() += 1; } }
@@ -185,9 +205,11 @@ pub fn run(seed: u64, nsched: u64, driver: &str, thorough: bool) -> serde_json::
       if sw >= 2 { switches_in_window += 1; distinct.insert(format!("{:?}{:?}", cfg.progs, out.log)); if samples.len() < 3 { samples.push(case.clone()); } }
       if out.deadlock { failures.push(json!({ "kind": "oracle", "clause": "no-deadlock", "detail": "threads did not finish within 5 s", "known": null, "case": case })); continue }
       if !out.violations.is_empty() { failures.push(json!({ "kind": "oracle", "clause": "cached-map-never-replaced", "detail": format!("{:?}", out.violations), "known": null, "case": case })); }
+      // every map() on one cache and option set hands out (a clone of) the one cached object: clones share the `mappings` allocation
+      if out.map_ptrs.windows(2).any(|w| w[0] != w[1]) { failures.push(json!({ "kind": "oracle", "clause": "cached-map-never-replaced", "detail": format!("map() handed out {} different cached objects for the same options during one run (addresses of their mappings: {:x?})", { let mut v = out.map_ptrs.clone(); v.sort(); v.dedup(); v.len() }, out.map_ptrs), "known": null, "case": case })); }
       for (t, (prog, ans)) in cfg.progs.iter().zip(&out.answers).enumerate() {
         for (op, a) in prog.iter().zip(ans) {
-          if Some(a) != seq.get(op) { failures.push(json!({ "kind": "oracle", "clause": "sequential-answer", "detail": format!("thread {t} {:?}: got {} — single-threaded answer {}", op, &a[..a.len().min(200)], seq.get(op).map(|s| &s[..s.len().min(200)]).unwrap_or("")), "known": null, "case": case })); }
+          if Some(a) != seq.get(op) { failures.push(json!({ "kind": "oracle", "clause": "sequential-answer", "detail": format!("thread {t} {:?}: got {} — single-threaded answer {}", op, trunc(a, 300), seq.get(op).map(|s| trunc(s, 300)).unwrap_or_default()), "known": null, "case": case })); }
         }
       }
       // validate the trace against the model: replay the observed order of accesses
@@ -203,7 +225,7 @@ pub fn run(seed: u64, nsched: u64, driver: &str, thorough: bool) -> serde_json::
     }
   }
   failures.truncate(20);
-  json!({ "property": "C18", "cases": runs, "distinct_nontrivial": distinct.len(), "samples": samples, "distribution": dist, "impl_panics": 0,
+  json!({ "property": prop, "cases": runs, "distinct_nontrivial": distinct.len(), "samples": samples, "distribution": dist, "impl_panics": 0,
     "oracle_failures": failures.iter().filter(|f| f["kind"] == "oracle").count(), "unknown_oracle_failures": failures.iter().filter(|f| f["kind"] == "oracle").count(), "known_counts": {},
     "corr_failures": failures.iter().filter(|f| f["kind"] == "corr").count(), "model_oracle_failures": 0, "driver_lines": d.lines, "failures": failures,
     "extra": { "traces_validated_against_impl": validated, "schedules_run": runs, "configs": configs.len(), "grants_that_blocked_on_a_real_lock": timeouts, "schedules_with_context_switch_in_window": switches_in_window } })
